@@ -5,6 +5,6 @@ CONSTANTS FallbackMode = "last"
  WaitMode = "none"
  MaxP = 3
  MaxB = 1
- MaxDeaf = 2
+ MaxDeaf = 1
 INVARIANTS Safety NeverStuckBehindOthers
 CHECK_DEADLOCK FALSE
